@@ -233,14 +233,22 @@ choice_lists_nonempty = st.lists(st.sampled_from(_CH), min_size=1, max_size=8)
 
 @st.composite
 def noises(draw):
-    ws = st.sampled_from([' ', ' ', '  ', '\t', ' \t ', '    '])
+    exotic = pct(draw) < 15
+    eol = draw(st.sampled_from(['\n', '\n', '\n', '\r\n']))
+    if exotic:
+        # every character str.split() treats as whitespace and file iteration does not treat as
+        # a line end: "arbitrary inter-token whitespace"
+        ws = st.sampled_from([' ', '\x0c', '\x0b', '\x1c', '\x1d', '\x1e', '\x1f', '\t', ' \x0c ',
+                              '\x0b\x0b', '\t\x1f'])
+        edge = st.sampled_from(['', '', ' ', '\x0c', '\x0b', '\x1c', '\x1d', '\x1e', '\x1f'])
+    else:
+        ws = st.sampled_from([' ', ' ', '  ', '\t', ' \t ', '    '])
+        edge = st.sampled_from(['', '', ' ', '\t', '  '])
     return {'seps': draw(st.lists(ws, min_size=1, max_size=4)),
-            'lead': draw(st.lists(st.sampled_from(['', '', ' ', '\t', '  ']), min_size=1,
-                                  max_size=3)),
-            'trail': draw(st.lists(st.sampled_from(['', '', ' ', '\t', '  ']), min_size=1,
-                                   max_size=3)),
+            'lead': draw(st.lists(edge, min_size=1, max_size=3)),
+            'trail': draw(st.lists(edge, min_size=1, max_size=3)),
             'info': draw(st.booleans()), 'final_newline': draw(st.booleans()),
-            'blank_tail': draw(st.sampled_from([0, 0, 1, 3]))}
+            'blank_tail': draw(st.sampled_from([0, 0, 1, 3])), 'eol': eol, 'exotic': exotic}
 
 
 def instance_labels(inst, opts=None):
